@@ -39,6 +39,10 @@ func init() {
 		Assumptions: []string{"reachability over a set of edges does not depend on the order in which the edges were inserted"},
 		Run:         runC17,
 		Mutants: []Mutant{
+			{Name: "interfaces-deduplicated-by-printed-form", File: "unused/unused.go", Rule: "R17.5", KeyPart: "graph).entry::map-key-is-not-a-printed-type",
+				Old: "\tfor _, typ := range g.interfaceTypes {\n\t\tallInterfaces[typ] = struct{}{}\n\t}\n", New: "\tprinted := map[string]bool{}\n\tfor _, typ := range g.interfaceTypes {\n\t\tif printed[typ.String()] {\n\t\t\tcontinue\n\t\t}\n\t\tprinted[typ.String()] = true\n\t\tallInterfaces[typ] = struct{}{}\n\t}\n"},
+			{Name: "objects-keyed-by-type-string", File: "unused/unused.go", Rule: "R17.5", KeyPart: "map-key-is-not-a-printed-type",
+				Old: "\tfor _, typ := range g.interfaceTypes {\n\t\tallInterfaces[typ] = struct{}{}\n\t}\n", New: "\tbyName := map[string]*types.Interface{}\n\tfor _, typ := range g.interfaceTypes {\n\t\tbyName[types.TypeString(typ, nil)] = typ\n\t}\n\tfor _, typ := range byName {\n\t\tallInterfaces[typ] = struct{}{}\n\t}\n"},
 			{Name: "context-dependent-memo", File: "unused/unused.go", Rule: "R17.4", KeyPart: "graph.pkg::construction-state",
 				Old: "func (g *graph) addUse(by, used NodeID) {\n", New: "func (g *graph) addUse(by, used NodeID) {\n\tif by == 0 {\n\t\tg.pkg = nil\n\t}\n"},
 			{Name: "map-loop-overwrites-state", File: "unused/unused.go", Rule: "R17.1", KeyPart: "graph).entry",
@@ -402,6 +406,107 @@ func runC17(c *Ctx) {
 			}
 		}
 	})
+	// R17.5: identity of types and objects. The use graph is defined on
+	// go/types identities. A map keyed by the printed form of a type or object
+	// merges entities that merely look alike (two generic interfaces whose
+	// methods mention equally named type parameters, local types of the same
+	// name in different scopes), and which one survives is whichever was
+	// inserted first — i.e. it depends on file and declaration order.
+	c.Rule("R17.5", func() { identityKeyObligations(c, ufuncs) })
+}
+
+// identityKeyObligations requires that no map in package unused is keyed by the
+// printed form of a go/types Type or Object.
+func identityKeyObligations(c *Ctx, ufuncs []*ssa.Function) {
+	typesPkg := "go/types"
+	isTypesEntity := func(t types.Type) bool {
+		// a type from go/types that describes a type or an object
+		for depth := 0; depth < 3; depth++ {
+			if p, ok := t.(*types.Pointer); ok {
+				t = p.Elem()
+				continue
+			}
+			break
+		}
+		n, ok := types.Unalias(t).(*types.Named)
+		if !ok || n.Obj().Pkg() == nil || n.Obj().Pkg().Path() != typesPkg {
+			return false
+		}
+		switch n.Obj().Name() {
+		case "Package", "Scope", "Info", "Config":
+			return false
+		}
+		return true
+	}
+	printed := func(v ssa.Value) string {
+		call, ok := v.(*ssa.Call)
+		if !ok {
+			return ""
+		}
+		cc := call.Common()
+		if cc.IsInvoke() {
+			if cc.Method.Name() == "String" && isTypesEntity(cc.Value.Type()) {
+				return "(" + TypeString(cc.Value.Type()) + ").String"
+			}
+			return ""
+		}
+		name := CalleeName(cc)
+		switch name {
+		case "go/types.TypeString", "go/types.ObjectString", "go/types.SelectionString", "go/types.ExprString":
+			return name
+		}
+		if callee := cc.StaticCallee(); callee != nil && callee.Signature.Recv() != nil && (callee.Name() == "String" || callee.Name() == "FullName") && isTypesEntity(callee.Signature.Recv().Type()) {
+			return name
+		}
+		if strings.HasPrefix(name, "fmt.Sprint") || name == "fmt.Appendf" {
+			// a go/types value among the formatted operands
+			for x := range BackSlice(call, SliceOpts{ThroughCalls: true, Stop: func(y ssa.Value) bool {
+				c2, ok := y.(*ssa.Call)
+				return ok && c2 != call
+			}}) {
+				if mi, ok := x.(*ssa.MakeInterface); ok && isTypesEntity(mi.X.Type()) {
+					return name + " of a " + TypeString(mi.X.Type())
+				}
+			}
+		}
+		return ""
+	}
+	n := 0
+	for _, fn := range ufuncs {
+		k := 0
+		Instrs(fn, false, func(in ssa.Instruction) {
+			var key ssa.Value
+			var what string
+			switch x := in.(type) {
+			case *ssa.MapUpdate:
+				key, what = x.Key, "inserted"
+			case *ssa.Lookup:
+				if _, isMap := x.X.Type().Underlying().(*types.Map); isMap {
+					key, what = x.Index, "looked up"
+				}
+			}
+			if key == nil {
+				return
+			}
+			if b, ok := key.Type().Underlying().(*types.Basic); !ok || b.Info()&types.IsString == 0 {
+				// identity keys (pointers, NodeID, structs of those) — the normal case
+				n++
+				return
+			}
+			n++
+			how := ""
+			for x := range BackSlice(key, SliceOpts{ThroughCalls: true}) {
+				if p := printed(x); p != "" {
+					how = p
+				}
+			}
+			k++
+			c.Check(FuncKey(fn)+"::map-key-is-not-a-printed-type#"+itoa(k), in.Pos(), how == "", "a string key %s here is built with %s: the printed form of a type or object is not injective (type parameters, local types, instantiations print alike), so distinct entities share one slot and the one that was inserted first wins — the verdicts then depend on file and declaration order; key maps by the go/types identity (pointer, typeutil.Map) instead", what, how)
+		})
+	}
+	if n < 10 {
+		c.Undecided("found only %d map accesses in package unused", n)
+	}
 }
 
 // unusedKeyObligations decides what the keys are made of under which used and
